@@ -58,7 +58,11 @@ def run_units(task):
             cols = max(int(stack[t0, :, MAX].max()), b) + 1
             rows = []
             for k in range(ndoms):
-                if costs_kind == "ties":
+                if costs_kind == "zeros":
+                    row = [0] * cols
+                elif costs_kind == "mostly_zeros":
+                    row = [0 if rnd.random() < 0.7 else rnd.randint(1, 5) for _ in range(cols)]
+                elif costs_kind == "ties":
                     row = [rnd.randint(1, 2) for _ in range(cols)]
                 elif costs_kind == "min_low":
                     row = [5] * cols
@@ -125,7 +129,7 @@ def run_units(task):
                 if names[hidx] == "min_cost":
                     if a < 0:
                         continue
-                    for ck in ("ties", "min_low", "min_high", "min_inside", "random"):
+                    for ck in ("ties", "min_low", "min_high", "min_inside", "random", "zeros", "mostly_zeros"):
                         one(hidx, a, a + w, ck)
                         res["evals"] += 1
                 else:
